@@ -6,6 +6,7 @@ import (
 	"math/big"
 	"math/rand"
 	"os"
+	"time"
 
 	"verif/harness/graph"
 
@@ -398,7 +399,9 @@ func C16(c *vk.Ctx) {
 				HubCfg{Mode: "prefer_ocsp", Sig: sig, Strict: false, Fetch: "actively", Disk: true, TrustA: false, Conf: "none", Ocsp: "good"})
 		}
 	}
-	hubCampaign(c, cfgs, c.Pick(1200, 40000), allDownEdges, 60, predC16)
+	if os.Getenv("VERIF_ONLY") == "" { // (debugging aid: only the guided parts)
+		hubCampaign(c, cfgs, c.Pick(1200, 40000), allDownEdges, 60, predC16)
+	}
 	// restarts that change the policy options (a reload with a stricter mode or without the trusted signer): what the
 	// previous run left on disk must be judged by the new configuration
 	families := [][]HubCfg{
@@ -449,9 +452,101 @@ func C16(c *vk.Ctx) {
 			c.Add("traces_validated_against_impl", 1)
 		}
 	}
+	// a restart that finds the origin gone: the disk store is all the new instance has
+	gone := 0
+	goneStart := time.Now()
+	for _, sig := range []string{"verify_log", "none", "verify"} {
+		for ci, cfg := range []HubCfg{
+			{Mode: "crl_only", Sig: sig, Strict: true, Fetch: "actively", Disk: true, TrustA: false, Conf: "none", Ocsp: "noaia"},
+			{Mode: "crl_only", Sig: sig, Strict: false, Fetch: "background", Disk: true, TrustA: false, Conf: "none", Ocsp: "noaia"},
+			{Mode: "crl_only", Sig: sig, Strict: false, Fetch: "actively", Disk: true, TrustA: true, Conf: "url", Ocsp: "noaia"},
+		} {
+			if c.Violations() > 6 || (!c.Thorough() && ci == 2 && sig != "verify_log") {
+				continue
+			}
+			g, res := exportHubFamily(c, []HubCfg{cfg})
+			c.Add("states", res.Distinct)
+			paths := restartOriginGonePaths(g)
+			rng.Shuffle(len(paths), func(i, j int) { paths[i], paths[j] = paths[j], paths[i] })
+			for pi, w := range paths {
+				if pi >= c.Pick(14, 600) || c.Violations() > 6 {
+					break
+				}
+				hubGoneUnfetched.Store(true)
+				runHubWalk(c, cfg, w, RandomShape(rng), c.Seed*7300+int64(gone), predC16)
+				hubGoneUnfetched.Store(false)
+				c.Add("traces_validated_against_impl", 1)
+				gone++
+			}
+		}
+	}
+	c.Set("restart_origin_gone_paths", int64(gone))
+	c.Set("restart_origin_gone_seconds", int64(time.Since(goneStart).Seconds()))
 	c.Set("spec", "Revocation.tla: VerifyNeverInForce (invariant), LenientRefreshWorks (action property), PolicyAccepts used by every intake action with the context table of DESIGN 3.4")
 	c.Set("rule", "as C01; intake paths: provision-time configured CRL (url/file), first CDP fetch, background load, refresh, each also after restart; signer status: resolvable (A in chain / trusted), unknown (sibling key S, foreign CA B), wrong; predicates compare the real verdict with what the policy ghost demands per signature mode")
 }
+
+// restartOriginGonePaths: a CRL is taken in from the certificate's distribution point, the instance is restarted on the same work_dir
+// and finds the origin gone: Provision (any configured document), handshake of c1 with a valid document at D (every signer, every key
+// set), Cleanup, Provision, then handshakes of c1 and c2 while D is down. What the restarted instance has in force is what it kept.
+func restartOriginGonePaths(g *graph.Graph) [][]*graph.Edge {
+	var out [][]*graph.Edge
+	opOf := func(e *graph.Edge) []any {
+		var op []any
+		json.Unmarshal(e.Op, &op)
+		return op
+	}
+	same := func(a, b any) bool { x, _ := json.Marshal(a); y, _ := json.Marshal(b); return string(x) == string(y) }
+	docQ := func(o []any) string {
+		if len(o) < 3 {
+			return ""
+		}
+		return parseDoc(o[2]).Q
+	}
+	for _, p1 := range g.Out[g.Init] {
+		o1 := opOf(p1)
+		if o1[0] != "provision" {
+			continue
+		}
+		for _, h := range g.Out[p1.To] {
+			oh := opOf(h)
+			if oh[0] != "handshake" || oh[1] != "c1" || docQ(oh) != "valid" {
+				continue
+			}
+			var hexp hubExpect
+			if json.Unmarshal(h.Expect, &hexp) != nil || !hexp.Inforce["D"] {
+				continue // (a list that policy keeps out of force leaves nothing to find after the restart)
+			}
+			for _, cl := range g.Out[h.To] {
+				if opOf(cl)[0] != "cleanup" {
+					continue
+				}
+				for _, p2 := range g.Out[cl.To] {
+					o2 := opOf(p2)
+					if o2[0] != "provision" || !same(o1[1], o2[1]) {
+						continue
+					}
+					w := []*graph.Edge{p1, h, cl, p2}
+					cur := p2.To
+					for _, cert := range []string{"c1", "c2"} {
+						for _, h2 := range g.Out[cur] {
+							if o := opOf(h2); o[0] == "handshake" && o[1] == cert && docQ(o) == "down" {
+								w = append(w, h2)
+								cur = h2.To
+								break
+							}
+						}
+					}
+					if len(w) > 4 {
+						out = append(out, w)
+					}
+				}
+			}
+		}
+	}
+	return out
+}
+
 
 // reloadSameDocPaths: Provision(d) [; Handshake(c1, d1)] ; Restart into the other configuration of the family ; Provision(d)
 // [; Handshake(c1, d1)] ; Handshake(c2) for every d and d1 the graph has.
